@@ -253,8 +253,10 @@ def float_trunc_term(I, x):
     lim = z3.FPVal(float(2 ** 62), F64)
     small = z3.And(z3.fpLT(x, lim), z3.fpGT(x, z3.fpNeg(lim)))
     conv = z3.BV2Int(z3.fpToSBV(RTZ, x, z3.BitVecSort(64)), True)
-    if z3.is_true(I.path.reduce(small)):       # (C13) |x| < 2**62 is a literal fact of the path: exact case only,
-        return mk_int(conv)                    # no unbounded 'hugeint' symbol in the path condition
+    if z3.is_true(I.path.reduce(small)) or (I.cfg.get('int_float_small_by_solver') and I.path.must(small)):
+        # (C13) |x| < 2**62 is a literal fact of the path (or, opt-in by the contract, proved by the solver): exact
+        # case only, no unbounded 'hugeint' symbol in the path condition
+        return mk_int(conv)
     r = z3.Int('hugeint!%d' % x.get_id())     # same term -> same symbol
     I._keep = _b.getattr(I, '_keep', [])
     I._keep.append(x)                          # keep the AST (and its id) alive
